@@ -1,7 +1,8 @@
 (* C19 - job filters mean what they say; cleaning commands delete only what is selected.
    Statements only; every proof is `exact <lemma>`.                        *)
 From Coq Require Import NArith List Bool.
-From XV Require Import model.Filter model.Clean proofs.Filter_lemmas proofs.Clean_lemmas.
+From XV Require Import model.Filter model.Clean model.FilterParse.
+From XV Require Import proofs.Filter_lemmas proofs.Clean_lemmas proofs.FilterParse_lemmas.
 Import ListNotations.
 Open Scope N_scope.
 
@@ -60,6 +61,54 @@ Theorem C19_never_running : forall w o j,
   In (job_key j) (clean w o) -> running j = false.
 Proof. exact never_running. Qed.
 Print Assumptions C19_never_running.
+
+(* design of the filter language, stated: no precedence between and / or (the chain is read left to right) ... *)
+Theorem C19_mixed_chain_left : forall a b c e,
+  eval {| x_first := a; x_rest := [(BOr, b); (BAnd, c)] |} e = (eval_atom a e || eval_atom b e) && eval_atom c e
+  /\ eval {| x_first := a; x_rest := [(BAnd, b); (BOr, c)] |} e = (eval_atom a e && eval_atom b e) || eval_atom c e.
+Proof. exact mixed_chain_left. Qed.
+Print Assumptions C19_mixed_chain_left.
+
+(* ... so the usual convention (and binds tighter) is NOT what a filter means *)
+Theorem C19_usual_precedence_refuted : exists a b c e,
+  eval {| x_first := a; x_rest := [(BOr, b); (BAnd, c)] |} e = false /\
+  (meaning_atom a e \/ (meaning_atom b e /\ meaning_atom c e)).
+Proof. exact usual_precedence_refuted. Qed.
+Print Assumptions C19_usual_precedence_refuted.
+
+(* `v = w` is true when both look-ups are missing (None == None): it selects every job that has neither tag *)
+Theorem C19_missing_equals_missing : forall v w e,
+  get v e = None -> get w e = None -> eval (single (AEq v (OVar w))) e = true.
+Proof. exact missing_equals_missing. Qed.
+Print Assumptions C19_missing_equals_missing.
+
+(* ---- the text of a filter (character-level grammar, model/FilterParse.v) ---- *)
+(* an accepted text has "and" or "or" -- in exactly that spelling -- between its tests *)
+Theorem C19_parse_ops : forall t r,
+  parse_filter t = Some r -> Forall (fun oa => fst oa = s_and \/ fst oa = s_or) (r_rest r).
+Proof. exact parse_ops. Qed.
+Print Assumptions C19_parse_ops.
+
+(* what is built from an accepted text answers True exactly when the documented meaning of the expression it
+   stands for holds, and that expression has a conjunction where the text says "and", a disjunction where it
+   says "or" (dec = re.compile on the sources that occur) *)
+Theorem C19_parse_meaning : forall dec t r x e,
+  parse_filter t = Some r -> expr_of dec r = Some x ->
+  (reval dec r e = Some true <-> meaning x e)
+  /\ Forall2 (fun (oa : str * ratom) (ob : bop * atom) =>
+                (fst oa = s_and /\ fst ob = BAnd) \/ (fst oa = s_or /\ fst ob = BOr)) (r_rest r) (x_rest x).
+Proof. exact parse_meaning. Qed.
+Print Assumptions C19_parse_meaning.
+
+Theorem C19_parse_stands_for : forall dec, (forall s, dec s <> None) -> forall r, exists x, expr_of dec r = Some x.
+Proof. exact expr_of_total. Qed.
+Print Assumptions C19_parse_stands_for.
+
+(* every expression (variables @state, @name or letters; strings without double quote, newline, tab; non-empty
+   lists) can be written as a text that is read back as that very expression *)
+Theorem C19_print_parse : forall r, wf_expr r -> parse_filter (pr_expr r) = Some r.
+Proof. exact print_parse. Qed.
+Print Assumptions C19_print_parse.
 
 (* ---- orphans ------------------------------------------------------------- *)
 Theorem C19_orphans_exact : forall w c io k,
@@ -142,3 +191,10 @@ Print Assumptions C19_orphans_through_link_refuted.
 Theorem C19_orphans_link_raises_prefix : exists w links, orphans_clean_l_prefix w links true false = None.
 Proof. exact orphans_link_raises_prefix. Qed.
 Print Assumptions C19_orphans_link_raises_prefix.
+
+(* the grammar before fixes/C19-5 (and/or as plain literals) read  x = "a" order = "b"  as  x = "a" or der = "b" *)
+Theorem C19_literal_ops_refuted : exists t r,
+  parse_filter_literal t = Some r /\ parse_filter t = None /\
+  r_rest r = [(s_or, RAEq [100; 101; 114] (ROConst [98]))].
+Proof. exact literal_ops_refuted. Qed.
+Print Assumptions C19_literal_ops_refuted.
